@@ -38,6 +38,8 @@ pub struct Config {
     pub toc_perm: u32,
     pub wide: bool,
     pub ec_dim_shift: u32,
+    /// C12: declare modular_16bit_buffers when (and only when) every intermediate value fits i16
+    pub force16: bool,
 }
 
 pub fn config_from(t: &mut Tape) -> Config {
@@ -61,6 +63,7 @@ pub fn config_from(t: &mut Tape) -> Config {
         toc_perm: t.choose(3),
         wide: t.flag(),
         ec_dim_shift: t.choose(3),
+        force16: false,
     }
 }
 
@@ -167,6 +170,7 @@ pub const N_TRANSFORMS: u32 = 1 + 12 + 3 + 9 + 4;
 
 pub struct Built {
     pub bytes: Vec<u8>,
+    pub m16: bool,
     /// truth: one Vec<i32> per image channel (colour then extra)
     pub truth: Vec<Channel>,
     pub desc: String,
@@ -481,6 +485,8 @@ pub fn build(c: &Config, seed: u64) -> Option<Built> {
     };
     // truth = reference inverse of the (possibly multiplier-adjusted) coded channels
     let mut truth = enc.channels.clone();
+    let fits = |chs: &[Channel]| chs.iter().all(|c| c.data.iter().all(|&v| v >= i16::MIN as i32 && v <= i16::MAX as i32));
+    let mut fits16 = fits(&truth);
     for tr in eff_tr.iter().rev() {
         match tr {
             Transform::Rct { begin_c, rct_type } => inverse_rct(&mut truth, *begin_c as usize, *rct_type),
@@ -495,12 +501,24 @@ pub fn build(c: &Config, seed: u64) -> Option<Built> {
                 truth.splice(b..b + 1, rec);
             }
         }
+        fits16 &= fits(&truth);
     }
     if truth.len() != nch {
         crate::explore::machinery_failure("C03 generator: truth channel count mismatch");
     }
-    let bytes = write_codestream(&img, &Sel::default(), &[enc.bytes]);
-    Some(Built { bytes, truth, desc })
+    let mut m16 = img.modular_16bit_buffers;
+    let mut frame_bytes = enc.bytes;
+    if c.force16 {
+        if !fits16 || float != 0 || depth > 12 {
+            return None;
+        }
+        // the flag lives in the image header only; the frame bytes do not depend on it
+        img.modular_16bit_buffers = true;
+        m16 = true;
+        let _ = &mut frame_bytes;
+    }
+    let bytes = write_codestream(&img, &Sel::default(), &[frame_bytes]);
+    Some(Built { bytes, m16, truth, desc })
 }
 
 pub enum Verdict {
